@@ -502,7 +502,7 @@ func (E *Engine) evalModifies(st *State, c *fnCtx, spec *FuncSpec, ev *cenv, _ i
 				panic(engineErr("elems() of non-slice in modifies"))
 			}
 			et := types.Unalias(v.T).Underlying().(*types.Slice).Elem()
-			out = append(out, &modItem{lv: &LVal{Kind: lvElem, Ref: v.F[0].S, Root: et}, allElems: true, expr: e.String()})
+			out = append(out, &modItem{lv: &LVal{Kind: lvElem, Ref: v.F[0].S, Root: et}, allElems: true, lo: v.F[1].S, hi: add(v.F[1].S, v.F[3].S), expr: e.String()})
 			continue
 		}
 		if e.Op == "call" && e.Args[0].Op == "ident" && e.Args[0].Name == "comp" && len(e.Args) == 2 {
@@ -630,7 +630,14 @@ func (E *Engine) havocMod(st *State, mi *modItem) {
 				E.checkWrite(st, comp, lv.Ref, "", "callee effect "+mi.expr)
 			}
 			a := E.heapArr(st.heap, comp, l.Sort, true)
-			st.heap[comp] = sx("store", a, lv.Ref, E.freshConst("hvarr", arrSort(l.Sort)))
+			na := E.freshConst("hvarr", arrSort(l.Sort))
+			if mi.lo != "" {
+				// only the slice's window [off, off+cap) may change
+				j := E.freshName("j")
+				st.assume(fmt.Sprintf("(forall ((%s Int)) (! (=> (or (< %s %s) (>= %s %s)) (= (select %s %s) (select (select %s %s) %s))) :pattern ((select %s %s))))",
+					j, j, mi.lo, j, mi.hi, na, j, a, lv.Ref, j, na, j))
+			}
+			st.heap[comp] = sx("store", a, lv.Ref, na)
 			if st.written != nil {
 				st.written[comp] = true
 			}
